@@ -778,6 +778,9 @@ def run(rep, tier):
     remove_fold_end_rule(rep, u)
     min_size_rule(rep, u)
     rep.floor("trim cases", trim_rule(rep, u), 6)
+    usrv = driver.load_units([common.src_unit("src/proto/http_server.c")])
+    rep.use_units(usrv)
+    rep.floor("server framing obligations", server_framing_rules(rep, usrv), 2)
     count_rule(rep, u)
     rep.floor("method spellings", method_table(rep, u, consts), 14)
     rep.floor("target component searches", span_rule(rep, u), 2)
@@ -800,3 +803,51 @@ def run(rep, tier):
         "http_hdr_val_get_ex (all byte values after CRLF), case-insensitive name match guards the found path, count loop structure, method "
         "table classification; the searches that split the request target are bounded by the target span.  NOT decided: that returned spans equal the RFC 7230/3986 delimitation for every request; query helpers.",
         ["memcmp/mem_cmpin compare as documented", "mem_find* return the first match or NULL (C13 covers their bodies)"], TRUSTED)
+
+
+# ------------------------------------------------------------------ the server's request framing (src/proto/http_server.c, anchored file)
+
+def server_framing_rules(rep, us):
+    """(a) every method whose arm does not end the request at the header block consults Content-Length: the switch over the
+    method code has a default arm that looks the field up (a PUT / DELETE / NOTIFY body left in the buffer is parsed as the
+    next pipelined request); (b) when the receive buffer is re-allocated while request pointers into it are live, they are
+    re-derived: stores to the request's hdr / data pointers follow the io_buf_realloc call on its path."""
+    u = us["src/proto/http_server.c"]
+    fn = need(u, "http_srv_recv_done_cb")
+    rep.functions.add(fn.name)
+    n = 0
+    sw = [b for b in fn.reachable_blocks() if fn.blocks[b].term and fn.blocks[b].term["k"] == "SwitchStmt" and fn.blocks[b].cond is not None and "method_code" in key(fn.blocks[b].cond)]
+    if not sw:
+        raise driver.AnalysisBroken("http_srv_recv_done_cb: switch over the method code not found")
+    for b in sw:
+        n += 1
+        dflt = [s_ for s_ in fn.blocks[b].succ if s_ is not None and (fn.blocks[s_].label or {}).get("default")]
+        ok = False
+        if dflt:
+            pd = fn.pdom().get(b, set()) - {b}
+            arm = fn.reach_from([dflt[0]], avoid=pd) | {dflt[0]}
+            for pos, root, c, ps in fn.calls():
+                if pos[0] in arm and (c.get("fn") or "").startswith("http_hdr_val_get") and any((_str_of(a) or "").lower() == "content-length" for a in c["args"]):
+                    ok = True
+        desc = "http_srv_recv_done_cb: methods without an arm of their own have their body length taken from Content-Length"
+        (rep.proved if ok else rep.violated)("R-FRAME", fn, "default-arm-reads-content-length", desc, "" if ok else
+                                             "PUT, DELETE, OPTIONS, NOTIFY ... fall out of the switch with data_size 0: 'PUT /file ... Content-Length: 43' followed by 43 bytes "
+                                             "that spell 'GET /smuggled HTTP/1.1' runs the callback twice")
+    for pos, root, c, ps in fn.calls({"io_buf_realloc"}):
+        if "rcv_buf" not in key(c["args"][0]):
+            continue
+        n += 1
+        after = fn.reach_from([pos[0]]) | {pos[0]}
+        stored = set()
+        for p2, r2, x, _ in fn.nodes():
+            if x.get("k") == "bin" and x["op"] == "=" and p2[0] in after and (p2[0] != pos[0] or p2[1] > pos[1]) and fn.dominates(pos[0], p2[0]):
+                k_ = key(strip_casts(x["x"]))
+                for f_ in ("req.hdr", "req.data"):
+                    if k_.endswith(f_):
+                        stored.add(f_)
+        ok = stored == {"req.hdr", "req.data"}
+        desc = "http_srv_recv_done_cb: the request's pointers into the receive buffer are re-derived after the buffer was re-allocated"
+        (rep.proved if ok else rep.violated)("R-FRAME", fn, "pointers-rebased-after-realloc", desc, "" if ok else
+                                             "io_buf_realloc moves the block; cli->req.hdr / .data / .line.* and cli->buf keep pointing into the freed one: a POST with "
+                                             "Content-Length 20000 into the 4 KiB buffer is a heap use-after-free (write at the response set-up, reads in the header lookups)", c.get("ln"))
+    return n
